@@ -16,6 +16,7 @@
 EXTENDS Naturals, Integers, Sequences, FiniteSets, TLC
 
 CONSTANTS Progs, MaxV,
+          CopyThrows,       \* set of Nat: how many copy constructions of the payload may throw (C20); {0} in the C04 configurations
           CopyUnderMutex,   \* knob: lock() copies the committed value after taking the writer mutex (code as read)
           CancelUnlocks     \* knob: cancel() releases the writer mutex (code as read)
 
@@ -37,15 +38,15 @@ Digit(t) == 2 * (t - 1) + th[t].opi
 Ver0 == [a |-> 0, b |-> 0, refs |-> 0, alive |-> FALSE, committed |-> FALSE]
 Th0 == [pc |-> "idle", op |-> 0, opi |-> 1, res |-> 0, c |-> 1, side |-> 1, lrl |-> TRUE, lcl |-> TRUE, n |-> 0, snap |-> 0, ra |-> 0,
         nrd |-> 0, first |-> 0, dying |-> 0, after |-> "", d |-> 0]
-Init0(p) == [prog |-> p,
+Init0(p, ct) == [prog |-> p,
              sh |-> [rl |-> TRUE, cl |-> TRUE, cnt |-> <<0, 0>>, lwm |-> 0, cwm |-> 0, slot |-> <<1, 1>>, nver |-> 1],
              ver |-> [i \in 1..MaxV |-> IF i = 1 THEN [a |-> 0, b |-> 0, refs |-> 2, alive |-> TRUE, committed |-> TRUE] ELSE Ver0],
              th |-> [t \in 1..Len(p) |-> Th0],
-             gh |-> [ncommit |-> 0, bad |-> FALSE, latest |-> 0],
+             gh |-> [ncommit |-> 0, bad |-> FALSE, latest |-> 0, tleft |-> ct],
              ev |-> NoEv]
-InitWith(p) == LET z == Init0(p) IN prog = z.prog /\ sh = z.sh /\ ver = z.ver /\ th = z.th /\ gh = z.gh /\ ev = z.ev
-ResetTo(p) == LET z == Init0(p) IN prog' = z.prog /\ sh' = z.sh /\ ver' = z.ver /\ th' = z.th /\ gh' = z.gh /\ ev' = z.ev
-Init == \E p \in Progs : InitWith(p)
+InitWith(p, ct) == LET z == Init0(p, ct) IN prog = z.prog /\ sh = z.sh /\ ver = z.ver /\ th = z.th /\ gh = z.gh /\ ev = z.ev
+ResetTo(p, ct) == LET z == Init0(p, ct) IN prog' = z.prog /\ sh' = z.sh /\ ver' = z.ver /\ th' = z.th /\ gh' = z.gh /\ ev' = z.ev
+Init == \E p \in Progs, ct \in CopyThrows : InitWith(p, ct)
 
 Do(t, from, guard, sh2, ver2, th2, gh2, e) ==
     /\ th[t].pc = from /\ guard
@@ -89,6 +90,12 @@ Writer(t) == LET n == th[t].n
           E(t, "ald", "rl", 1, B(sh.rl), 0))
     \/ Do(t, "c5", TRUE, sh, [ver EXCEPT ![n].a = ver[th[t].snap].a], Pc(t, "c6"),
           [gh EXCEPT !.bad = @ \/ ~ver[th[t].snap].alive], E(t, "kb", "cell", n, ver[th[t].snap].a, 0))
+    \* C20: the payload's copy constructor throws (before it copied anything): the half-built version is gone, lock() unwinds -
+    \* the inner read section is left, the writer mutex released - and the caller gets the exception
+    \/ Do(t, "c5", gh.tleft > 0, sh, [ver EXCEPT ![n].alive = FALSE, ![n].refs = 0], Pc(t, "t1"), [gh EXCEPT !.tleft = @ - 1],
+          E(t, "throw", "cell", n, 0, 2))
+    \/ Do(t, "t1", TRUE, Inc(th[t].c, -1), ver, Pc(t, "t2"), gh, E(t, "arm", CntName[th[t].c], 1, sh.cnt[th[t].c], sh.cnt[th[t].c] - 1))
+    \/ Do(t, "t2", TRUE, [sh EXCEPT !.cwm = 0], ver, [th[t] EXCEPT !.pc = "ret", !.res = -2], gh, E(t, "munlock", "cw", 1, 0, 0))
     \/ Do(t, "c6", TRUE, sh, [ver EXCEPT ![n].b = ver[th[t].snap].b], Pc(t, "c7"),
           [gh EXCEPT !.bad = @ \/ ~ver[th[t].snap].alive], E(t, "ke", "cell", n, ver[th[t].snap].b, 0))
     \/ Do(t, "c7", TRUE, Inc(th[t].c, -1), ver, Pc(t, IF CopyUnderMutex THEN "c8" ELSE "c1"), gh,
@@ -161,7 +168,7 @@ SnapshotImmutable == [][\A v \in 1..MaxV : (ver[v].committed /\ ver'[v].alive) =
 NoTornSnapshot == \A t \in Threads : (th[t].pc = "ret" /\ th[t].op \in {3, 4, 5}) => th[t].res >= 0
 \* C04: writers are serialised from lock() to release
 InWrite(t) == th[t].pc \in {"c8", "c9", "x1", "m1", "m2", "m5", "m6", "m7", "m7y", "m8", "m9", "m9y", "m12", "m13"}
-                \/ (CopyUnderMutex /\ th[t].pc \in {"c2", "c3", "c4", "c5", "c6", "c7"})
+                \/ (CopyUnderMutex /\ th[t].pc \in {"c2", "c3", "c4", "c5", "c6", "c7", "t1", "t2"})
 WriterSerial == Cardinality({t \in Threads : InWrite(t)}) <= 1
 \* C04: no lost update: when nobody is writing both slots hold the latest commit, whose value consists of exactly the commits
 Digits(v) == IF v <= 0 THEN 0 ELSE IF v < 8 THEN 1 ELSE IF v < 64 THEN 2 ELSE IF v < 512 THEN 3 ELSE IF v < 4096 THEN 4 ELSE 5
